@@ -103,6 +103,21 @@ def build(reg, only=None):
             for k, u in units.get(src, {}).items():
                 if k in names:
                     units['C05'].setdefault(k, u)
+    # C02 names the tokenizer's environment-name tokens and the $ / $$ choice among its mechanisms (units of C11)
+    if 'C02' in units and 'C11' in units:
+        for k in ('impl_read_environment', 'environment-name-pattern', 'impl_maybe_read_math_mode_delimiter'):
+            if k in units['C11']:
+                units['C02'].setdefault(k, units['C11'][k])
+    # C17: a state may also be derived through a chain of deltas (unit of C10)
+    if 'C17' in units and 'C10' in units:
+        k = 'ParsingStateDeltaChained.get_updated_parsing_state'
+        if k in units['C10']:
+            units['C17'].setdefault(k, units['C10'][k])
+    # C05 / C06 / C07: \verb and the verbatim environment are read by the legacy verbatim arguments parser (unit of C16): it stays
+    # inside the string and raises located parse errors only
+    for pid in ('C05', 'C06', 'C07'):
+        if pid in units and 'C16' in units and 'VerbatimArgsParser.parse_args' in units['C16']:
+            units[pid].setdefault('VerbatimArgsParser.parse_args', units['C16']['VerbatimArgsParser.parse_args'])
     # C13's ASCII / 'fail' statements are lemmas over C04's step contract and policy/protection contracts
     if 'C13' in units and 'C04' in units:
         for k, u in units['C04'].items():
